@@ -105,6 +105,10 @@ def ensure(config="quick", verbose=True):
         if os.path.exists(marker):
             info.update(json.load(open(marker)))
             info["reused"] = True
+            try:
+                os.utime(d, None)   # LRU: keep recently used fact bases
+            except OSError:
+                pass
             return d, info
         if os.path.exists(d):
             shutil.rmtree(d)
